@@ -854,19 +854,11 @@ def _iso_verdict(text, want, got) -> str:
     return "" if ok else f"{text!r} -> {got!r} (expected {want})"
 
 
-def _rs_iso_tabulate(ctx, mir) -> None:
-    """RSISO.tabulated: the compiled parser decided on values: the MIR of python::parsing::parse_iso8601 and of everything it reaches in the
-    crate (Parser::new / parse / parse_datetime / parse_time / parse_integer / iso_to_ymd / ordinal_to_ymd, the calendar helpers) is
-    evaluated by the checker's MIR evaluator (pvs/mirexec.py) on the table of PYISO.tabulated; the pyo3 constructors it ends in
-    (PyDate / PyTime / PyDateTime::new_bound, Py::new, to_object, downcast_bound) stand for the standard library's date / time /
-    datetime.  Accepted strings must yield exactly the value they denote, refused ones a ValueError."""
+def pyo3_models() -> list:
+    """what the pyo3 functions the crate's Python layer ends in stand for, for the MIR evaluator: the constructors of the standard library's
+    date / time / datetime (a ValueError of the constructor is the Err the binding returns), Py::new / to_object / downcast_bound hand the value on"""
     import datetime as _dt
-    from .. import mirexec
     from ..mirexec import Enum, Opaque, Ref, Struct
-    rel = "rust/src/parsing.rs"
-    if mir is None:
-        return
-    sf = mirsym.struct_fields_from_source((core.REPO / rel).read_text())
 
     def tz_of(opt):
         if opt.variant == "None":
@@ -884,13 +876,30 @@ def _rs_iso_tabulate(ctx, mir) -> None:
             except (ValueError, OverflowError):
                 return Enum("Err", [Opaque()])
         return g
-    ext = [(r"PyDateTime::new_bound$", guard(lambda py, y, mo, d, h, mi, s_, us, tz: _dt.datetime(y, mo, d, h, mi, s_, us, tzinfo=tz_of(tz)))),
+    return [(r"PyDateTime::new_bound$", guard(lambda py, y, mo, d, h, mi, s_, us, tz: _dt.datetime(y, mo, d, h, mi, s_, us, tzinfo=tz_of(tz)))),
            (r"PyDate::new_bound$", guard(lambda py, y, mo, d: _dt.date(y, mo, d))),
            (r"PyTime::new_bound$", guard(lambda py, h, mi, s_, us, tz: _dt.time(h, mi, s_, us, tzinfo=tz_of(tz)))),
            (r"pyo3::Py::<.*>::new::<", lambda py, v: Enum("Ok", [v])),
            (r"as pyo3::ToPyObject>::to_object$", lambda r, py: r.get() if isinstance(r, Ref) else r),
            (r"::downcast_bound::<", lambda r, py: Enum("Ok", [r])),
            (r"PyValueError::new_err::<", lambda s_: Opaque())]
+
+
+def _rs_iso_tabulate(ctx, mir) -> None:
+    """RSISO.tabulated: the compiled parser decided on values: the MIR of python::parsing::parse_iso8601 and of everything it reaches in the
+    crate (Parser::new / parse / parse_datetime / parse_time / parse_integer / iso_to_ymd / ordinal_to_ymd, the calendar helpers) is
+    evaluated by the checker's MIR evaluator (pvs/mirexec.py) on the table of PYISO.tabulated; the pyo3 constructors it ends in
+    (PyDate / PyTime / PyDateTime::new_bound, Py::new, to_object, downcast_bound) stand for the standard library's date / time /
+    datetime.  Accepted strings must yield exactly the value they denote, refused ones a ValueError."""
+    import datetime as _dt
+    from .. import mirexec
+    from ..mirexec import Enum, Opaque, Ref, Struct
+    rel = "rust/src/parsing.rs"
+    if mir is None:
+        return
+    sf = mirsym.struct_fields_from_source((core.REPO / rel).read_text())
+
+    ext = pyo3_models()
     bad, n = [], 0
     try:
         f = mir.fn("parse_iso8601")
